@@ -340,6 +340,54 @@ def define_variables(conn: Obj, mapping: dict) -> None:
         sandbox.call(sandbox.getattr(vars_obj, "update_variables"), [st], {}, None)
 
 
+STATE_ROLES = ("table", "index", "rowcount", "last_sql", "last_params", "sqlstate", "arraysize")
+
+
+def sowner(cur: Obj, role: str) -> Obj:
+    """the object that holds the cursor state `role`: the cursor itself, or a holder object below it"""
+    o = cur
+    for a in R()["owner_path"].get(role, ()):
+        nxt = o.attrs.get(a)
+        if not isinstance(nxt, Obj):
+            raise AnalysisError(f"cursor state holder `{a}` (for {role}) is missing on {o.name}")
+        o = nxt
+    return o
+
+
+def sget(cur: Obj, role: str):
+    return sowner(cur, role).attrs.get(R()[role])
+
+
+def sset(cur: Obj, role: str, v) -> None:
+    sowner(cur, role).attrs[R()[role]] = v
+
+
+def sowners(cur: Obj) -> list:
+    """the cursor and every holder of a piece of its state"""
+    out = [cur]
+    for role in STATE_ROLES:
+        o = sowner(cur, role)
+        if not any(o is x for x in out):
+            out.append(o)
+    return out
+
+
+def _materialise_holders(cur: Obj) -> None:
+    """when the cursor keeps its state in holder objects, create them the way the cursor's own constructor does"""
+    paths = {p_ for p_ in R()["owner_path"].values() if p_}
+    if not paths:
+        return
+    from .interp import Hooks as _H, Interp as _I
+    from .model import Program
+    prog = _PROG if _PROG is not None else Program()
+    sandbox = _I(prog, _H(), [])
+    shadow = sandbox.construct(ClsRef(f"fakesnow.{CURSOR[0]}.{CURSOR[1]}"), [cur.attrs.get(R().conn), cur.attrs.get(R().duck), cur.attrs.get(R().dict_flag)], {}, None)
+    if isinstance(shadow, Obj):
+        for p_ in paths:
+            if p_[0] in shadow.attrs and p_[0] not in cur.attrs:
+                cur.attrs[p_[0]] = shadow.attrs[p_[0]]
+
+
 def make_session(database_set=None, schema_set=None, db_path=False):
     r = R()
     duck = Obj("duck", kind="duck")
@@ -353,9 +401,11 @@ def make_session(database_set=None, schema_set=None, db_path=False):
         variables=_new_variables(),
         **{r.paramstyle: Const("pyformat"), r.conn_duck: duck},
     )
-    cur = Obj("cur", cls=CURSOR, **{
-        r.conn: conn, r.duck: duck, r.dict_flag: Const(False), r.last_sql: Sym("old_last_sql"), r.last_params: Sym("old_last_params"),
-        r.sqlstate: Const(None), r.arraysize: Const(1), r.table: Sym("old_table"), r.index: Sym("old_index"), r.rowcount: Sym("old_rowcount")})
+    cur = Obj("cur", cls=CURSOR, **{r.conn: conn, r.duck: duck, r.dict_flag: Const(False)})
+    _materialise_holders(cur)
+    for role, v in (("last_sql", Sym("old_last_sql")), ("last_params", Sym("old_last_params")), ("sqlstate", Const(None)), ("arraysize", Const(1)),
+                    ("table", Sym("old_table")), ("index", Sym("old_index")), ("rowcount", Sym("old_rowcount"))):
+        sset(cur, role, v)
     return duck, conn, cur
 
 
@@ -462,7 +512,7 @@ def run_execute(prog: Program, kind: str, mode: str | None, params=None, paramst
         conn.attrs["nop_regexes"] = nop_regexes if nop_regexes is not None else Const(None)
         if variables:
             define_variables(conn, variables)
-        cur.attrs[R().sqlstate] = Const(old_sqlstate)
+        sset(cur, "sqlstate", Const(old_sqlstate))
         sessions.append((conn, cur))
         return I.call(I.getattr(cur, entry), [Sym("COMMAND", typ="str", truthy=True), params if params is not None else Const(None)], {}, None)
 
